@@ -18,7 +18,7 @@ def prop(pid, **kw):
 
 prop(
     "C04",
-    lean_modules=["BloomVerif.Bridge.Leaf", "BloomVerif.Bridge.PreCond", "BloomVerif.Lemmas.NumVal", "BloomVerif.Props.C04"],
+    lean_modules=["BloomVerif.Bridge.Leaf", "BloomVerif.Bridge.PreCond", "BloomVerif.Bridge.TreePre", "BloomVerif.Lemmas.NumVal", "BloomVerif.Props.C04"],
     technique="Lean 4 proof (range-cover theorem over Rat/±inf, monotone lift through AND/OR trees) + regenerated Go->Lean leaf evaluators with bridge lemmas + differential correspondence",
     design_ref="DESIGN.md section 4 C04",
     text="Machine-checked proof that a block whose metadata covers a row is kept by every prefilter tree the row's exact values satisfy "
@@ -46,7 +46,7 @@ CONTENT_ASSUME = ["rows are JSON objects whose strings are valid UTF-8 (what jso
 
 prop(
     "C01",
-    lean_modules=["BloomVerif.Lemmas.Guard", "BloomVerif.Lemmas.Tokenizer", "BloomVerif.Lemmas.Content", "BloomVerif.Props.C04", "BloomVerif.Props.C01"],
+    lean_modules=["BloomVerif.Lemmas.Guard", "BloomVerif.Lemmas.Tokenizer", "BloomVerif.Lemmas.Content", "BloomVerif.Bridge.TreeBloom", "BloomVerif.Bridge.Guard", "BloomVerif.Props.C04", "BloomVerif.Props.C01"],
     technique="Lean 4 proof (walker prefix-closure lemma, regex-guard soundness, monotone filter domination, C04 lift; for every JSON tree, tokenizer, expression tree and file/block split) + regenerated Unicode tables + three-granularity differential correspondence",
     design_ref="DESIGN.md section 4 C01",
     text="Machine-checked theorem C01_no_false_negatives: for index-covered files (established for flush and merge output by C18's theorems), every stored row that matches the bloom and regex trees under the documented "
@@ -60,7 +60,7 @@ prop(
 
 prop(
     "C02",
-    lean_modules=["BloomVerif.Bridge.PreCond", "BloomVerif.Lemmas.Content", "BloomVerif.Lemmas.Exact", "BloomVerif.Props.C02"],
+    lean_modules=["BloomVerif.Bridge.PreCond", "BloomVerif.Bridge.TreePre", "BloomVerif.Bridge.TreeBloom", "BloomVerif.Lemmas.Content", "BloomVerif.Lemmas.Exact", "BloomVerif.Props.C02"],
     technique="Lean 4 proof (query = filter of selected blocks' rows, as list equality; sublist for multiplicity) + differential correspondence per (query,row) and end to end with block-level layout read back",
     design_ref="DESIGN.md section 4 C02",
     text="Machine-checked theorems: every returned row is stored and satisfies the documented semantics whatever the filters answer (query_sound); the answer is a sublist of the stored rows (multiplicity); "
@@ -364,11 +364,11 @@ prop(
 
 prop(
     "C24",
-    lean_modules=["BloomVerif.Bridge.PreCond", "BloomVerif.Bridge.PlanReads", "BloomVerif.Props.C24"],
+    lean_modules=["BloomVerif.Bridge.PreCond", "BloomVerif.Bridge.TreePre", "BloomVerif.Bridge.TreeBloom", "BloomVerif.Bridge.Guard", "BloomVerif.Bridge.PlanReads", "BloomVerif.Props.C24"],
     technique="Lean 4 proof on the read-plan model (open requires surviving blocks and a passing file filter; a row read requires prefilter and block-filter pass; no region read without conditions) + comparison of every read extent of the auditing store with the plan",
     design_ref="DESIGN.md section 4 C24",
     text="Machine-checked for the plan; on real layouts every OpenFile and every successful read extent [offset, length) logged by the auditing DataStore during fault-free, uncancelled queries must be explained by the plan: only planned files are opened, row data is read only of blocks the plan scans, "
-         "the block filter region is read only when the query has bloom/regex conditions and a candidate block has a section, and every extent lies inside a declared row-data extent or the filter region. The chunk bounds themselves are proved under C19. The expectations are computed from the Lean pruneBloom (compared with the implementation's prune query); planBlockFilterReads (its hasSections latch) and evaluatePrefilterCondition are regenerated from the Go source on every run and proved equal to the model (Bridge/PlanReads, Bridge/PreCond). Directed layouts: ranges starting/ending exactly on the prefilter's bound, one-sided saturated ranges, files mixing sectioned and sectionless blocks, regex trees over files lacking some of their fields.",
+         "the block filter region is read only when the query has bloom/regex conditions and a candidate block has a section, and every extent lies inside a declared row-data extent or the filter region. The chunk bounds themselves are proved under C19. The expectations are computed from the Lean pruneBloom (compared with the implementation's prune query); planBlockFilterReads (its hasSections latch), evaluatePrefilterCondition and the two tree walks evaluatePrefilterExpression / evaluateBloomExpression are regenerated from the Go source on every run and proved equal to the model (Bridge/PlanReads, Bridge/PreCond, Bridge/TreePre, Bridge/TreeBloom; the regex field guard regexExpressionToBloomFieldExpression likewise: Bridge/Guard). Directed layouts: ranges starting/ending exactly on the prefilter's bound, one-sided saturated ranges, files mixing sectioned and sectionless blocks, regex trees over files lacking some of their fields.",
     trusted_base=QUERY_TB, assumptions=["'no bloom or regex conditions' = both expressions absent (DESIGN.md section 3)"],
 )
 
